@@ -85,6 +85,12 @@ fn rejected_menu(cfg: &Cfg, w: &World) -> Vec<(&'static str, Event)> {
                 v.push(("401-without-realm", Event::Deliver { to: t.clone(), reply: Reply::plain(RClass::Error(401)).with_chal(Chal { realm: false, nonce: NonceKind::Plain(7), pas: PasKind::Absent }).with_fp(fp) }));
                 v.push(("401-without-nonce", Event::Deliver { to: t.clone(), reply: Reply::plain(RClass::Error(401)).with_chal(Chal { realm: true, nonce: NonceKind::Absent, pas: PasKind::Absent }).with_fp(fp) }));
                 v.push(("438-without-nonce", Event::Deliver { to: t.clone(), reply: Reply::plain(RClass::Error(438)).with_fp(fp) }));
+                // an error response that carries no ERROR-CODE at all: unauthenticated, authenticated, wrongly authenticated
+                for mac in [RMac::None, RMac::Mi, RMac::Sha, RMac::BadMi, RMac::ShaOtherPass] {
+                    v.push(("error-response-without-error-code", Event::Deliver { to: t.clone(), reply: Reply::plain(RClass::ErrorNoCode).with_mac(mac).with_fp(fp) }));
+                }
+                // a success response carrying both integrity attributes (the one that is not in force makes it unacceptable)
+                v.push(("both-macs-response", Event::Deliver { to: t.clone(), reply: Reply::plain(RClass::Success).with_mac(RMac::Both).with_fp(fp) }));
                 if !cfg.reliable() {
                     v.push(("auth-failing-response-unreliable/absent", Event::Deliver { to: t.clone(), reply: Reply::plain(RClass::Success).with_fp(fp) }));
                     v.push(("auth-failing-response-unreliable/other-password", Event::Deliver { to: t.clone(), reply: Reply::plain(RClass::Success).with_mac(RMac::MiOtherPass).with_fp(fp) }));
@@ -297,6 +303,7 @@ pub fn run(ctx: &RunCtx) -> i32 {
                             })
                             .collect()
                     };
+                    // (no marker exception for these: they are not responses whose integrity value is wrong)
                     let same = if name.starts_with("auth-failing-response-unreliable") || name == "wrong-algorithm-response" || name.ends_with("failing-auth-unreliable") {
                         norm(&trace_a, target) == norm(&trace_b, target)
                     } else {
@@ -330,9 +337,9 @@ pub fn run(ctx: &RunCtx) -> i32 {
         rep,
         Finish {
             level: "model_checking",
-            rule: format!("breadth-first exploration of the real client to depth {} for 8 transport x mechanism x fingerprint configurations (limit 3) over {{Send, Timer, AdvanceTo, Deliver(accepted reply kinds of the mechanism incl. 401 / 438 challenges), every rejected-buffer kind: undecodable (garbage, truncated), request class, reply for an unknown id, reply for a finished id, bad / missing / misplaced FINGERPRINT, auth-failing response on unreliable transport (corrupted, absent, other password), both-MACs response, wrong-algorithm response, 401 without realm / nonce, 438 without nonce, complete 401 / 438 challenges (new realm / nonce / algorithms) whose own integrity attribute fails, indication failing authentication / without integrity}}. Direct oracle on every transition whose call returned Err: no events and a byte-identical canonical snapshot before/after, the only tolerated change being one added violated marker for a response on unreliable transport with credentials. Differential oracle at every visited state: a fixed continuation (all outstanding requests driven to their final outcome by the pending deadlines, one more exchange, RTO of the new request, final snapshot) is run with and without each rejected kind inserted and must produce identical observations (only TimedOut -> ProtectionViolated for the affected request may differ)", depth),
+            rule: format!("breadth-first exploration of the real client to depth {} for 8 transport x mechanism x fingerprint configurations (limit 3) over {{Send, Timer, AdvanceTo, Deliver(accepted reply kinds of the mechanism incl. 401 / 438 challenges), every rejected-buffer kind: undecodable (garbage, truncated), request class, reply for an unknown id, reply for a finished id, bad / missing / misplaced FINGERPRINT, auth-failing response on unreliable transport (corrupted, absent, other password), both-MACs response, wrong-algorithm response, 401 without realm / nonce, 438 without nonce, an error response without ERROR-CODE (5 integrity variants), a long-term success response with both MACs, complete 401 / 438 challenges (new realm / nonce / algorithms) whose own integrity attribute fails, indication failing authentication / without integrity}}. Direct oracle on every transition whose call returned Err: no events and a byte-identical canonical snapshot before/after, the only tolerated change being one added violated marker for a response on unreliable transport with credentials. Differential oracle at every visited state: a fixed continuation (all outstanding requests driven to their final outcome by the pending deadlines, one more exchange, RTO of the new request, final snapshot) is run with and without each rejected kind inserted and must produce identical observations (only TimedOut -> ProtectionViolated for the affected request may differ)", depth),
             assumptions: vec!["the feature-gated snapshot renders every field of StunClient except the stateless encoder / decoder".into()],
-            required_symbols: vec!["bfs-configs", "rejected-and-unchanged", "marker-exception", "continuation-identical", "undecodable-garbage", "request-class", "reply-for-unknown-id", "reply-for-finished-id", "bad-fingerprint", "missing-fingerprint", "both-macs-response", "wrong-algorithm-response", "401-without-realm", "438-without-nonce", "401-failing-auth-unreliable", "438-failing-auth-unreliable", "indication-failing-auth"],
+            required_symbols: vec!["bfs-configs", "rejected-and-unchanged", "marker-exception", "continuation-identical", "undecodable-garbage", "request-class", "reply-for-unknown-id", "reply-for-finished-id", "bad-fingerprint", "missing-fingerprint", "both-macs-response", "wrong-algorithm-response", "401-without-realm", "438-without-nonce", "401-failing-auth-unreliable", "438-failing-auth-unreliable", "error-response-without-error-code", "indication-failing-auth"],
             min_outcomes: 8,
             exhaustive: true,
             bounds: json!({"depth": depth}),
